@@ -426,10 +426,22 @@ fn run(ctx: &mut Ctx) {
         };
         match i % 4 {
             0 => {
-                let other = mk("other_run.mid", if run_number == u32::MAX { 7 } else { run_number + 1 }, files.last().unwrap().t1 + 1);
-                let mut a = paths.clone();
-                a.insert(rng.usize(a.len() + 1), other);
-                refuse(ctx, "files of different runs", a);
+                // a file of another run: any other number (0 and the simulation's u32::MAX included), earliest or
+                // latest in time, first / last / anywhere on the command line
+                let mut others: Vec<u32> = vec![if run_number == u32::MAX { 7 } else { run_number + 1 }, 0, 1, u32::MAX - 1];
+                if run_number != u32::MAX {
+                    others.push(u32::MAX);
+                }
+                for (oi, other_run) in others.into_iter().enumerate() {
+                    let early = oi % 2 == 1;
+                    let t = if early { files[0].t0 - 2 } else { files.last().unwrap().t1 + 1 };
+                    let other = mk(&format!("other_run{}.mid", oi), other_run, t);
+                    for pos in [0usize, paths.len(), rng.usize(paths.len() + 1)] {
+                        let mut a = paths.clone();
+                        a.insert(pos, other.clone());
+                        refuse(ctx, "files of different runs", a);
+                    }
+                }
             }
             1 => {
                 let j = rng.usize(nfiles);
